@@ -199,7 +199,24 @@ fn forms(ctx: &mut Ctx, env: &Env, rng: &mut Rng, base: &Engine, descr: &str) {
 
 fn corrupt(rng: &mut Rng, line: &str) -> (String, &'static str) {
     let bytes = line.as_bytes();
-    match rng.below(19) {
+    match rng.below(21) {
+        // what a file read carelessly leaves behind: a byte order mark in front of the entry,
+        // a line terminator at its end (or in the middle: two lines in one entry)
+        19 => {
+            let stamped = format!("{} {} {}", rng.range(0, 1000), rng.range(1000, 90000), line);
+            (format!("\u{feff}{}", if rng.chance(0.5) { line } else { &stamped }), "byte-order-mark")
+        }
+        20 => {
+            let stamped = format!("{} {} {}", rng.range(0, 1000), rng.range(1000, 90000), line);
+            let body = if rng.chance(0.4) { stamped.as_str() } else { line };
+            let nl = *rng.pick(&["\n", "\r\n", "\n", "\r"]);
+            let s = match rng.below(4) {
+                0 | 1 => format!("{}{}", body, nl),
+                2 => format!("{}{}", nl, body),
+                _ => format!("{}{}{}", body, nl, line),
+            };
+            (s, "line-terminator-inside-the-entry")
+        }
         17 => (format!("{}{}", line, *rng.pick(&[" ", "  ", "\t", " \r"])), "trailing-whitespace"),
         18 => (format!("{} {} {}{}", rng.range(0, 1000), rng.range(1000, 90000), line, *rng.pick(&[" ", "  "])), "stamped-trailing-whitespace"),
         0 => {
